@@ -76,6 +76,8 @@ package casket
 
 //@ unit start_servers props=C08 filter=`casket\.startServers$`
 //@ ghost opened int
+//@ // built-in: goroutines launched (each server's Serve and ServePacket run in their own)
+//@ ghost spawned int
 //@ func IsUpgrade
 //@   pure
 //@ extern invoke:(github.com/tmpim/casket.TCPServer).Listen
@@ -89,7 +91,7 @@ package casket
 
 //@ func startServers
 //@   requires inst != nil && restartFds == nil && !IsUpgrade()
-//@   modifies ghost:opened, Instance.servers, E:ServerListener
+//@   modifies ghost:opened, ghost:spawned, Instance.servers, E:ServerListener
 //@   // restricted to a fresh start (restartFds == nil, not an upgrade): the returns of the fd-inheritance branches are dead under it, by declaration
 //@   unreachable reachable_return#1
 //@   unreachable reachable_return#2
@@ -103,7 +105,8 @@ package casket
 //@   unreachable reachable_return#10
 //@   ensures [no_listener_leak] result != nil ==> opened == old(opened)
 //@   ensures [all_listening] result == nil ==> opened == old(opened) + 2*len(serverList)
-//@   loop 1 invariant 0 <= #i && #i <= len(serverList) && opened == old(opened) + 2*#i && inst != nil
+//@   ensures [nothing_serves_unless_all_bound] result != nil ==> spawned == old(spawned)
+//@   loop 1 invariant 0 <= #i && #i <= len(serverList) && opened == old(opened) + 2*#i && inst != nil && spawned == old(spawned)
 
 //@ unit restart props=C16,C08 filter=`casket\.Instance\)\.Restart$|casket\.Instance\)\.Restart\$1$`
 //@ // reload: the old instance's restart callbacks first; a failure (an error OR a panic, at any stage) runs the
